@@ -22,8 +22,10 @@ from ..impl import mx, close_all, quiet
 CFG = {
     "weights": {"new_space": 2.0, "del_space": 0.5, "new_cells": 3.0, "set_formula": 0.6, "del_cells": 1.5,
                 "rename_cells": 1.5, "add_bases": 2.5, "remove_bases": 1.2, "set_ref": 2.5, "del_ref": 1.0,
-                "set_mref": 0.8, "del_mref": 0.4, "eval": 0.8, "bad": 2.0, "rename_space": 0.0},
+                "set_mref": 0.8, "del_mref": 0.4, "eval": 0.8, "bad": 2.0, "rename_space": 1.6},
     "cross_names": 0.2,
+    "nest_names": True,             # trees three deep in which a child may bear the name of an ancestor (`A.A`, `A.X.A`)
+    "clash_rename_space": 0.08,     # share of `space.rename(..)` in the name-clash histories (`X.X`, `A.X.A` are common there)
     "enum_always": ("new_cells", "new_space", "set_ref", "rename_cells", "add_bases"),   # every edit that can bring two members of one name together
     "clash_wide": True,     # name-clash histories: several sub spaces per base, re-deriving edits after every request
 }
@@ -61,6 +63,58 @@ def sanity_worklist_key(m, err):
         return "C12-check-sanity-same-short-name" if not nodes else None
     except Exception:   # noqa
         return None
+
+
+def graph_vs_containers(m, op, out, hist):
+    """the spaces as the containers give them (model.spaces, then space.spaces, recursively) and the nodes of the
+    inheritance graph are the same thing under the same names: every space's name is its key in the parent, its
+    dotted id is the path of keys, it is the node of that id, and the graph has no other node.  (The library's own
+    self-check asserts the same; this walk does not depend on it.)"""
+    graph = m._impl.spmgr._graph
+    ids = {}
+    todo = [("", m._impl, k_, v) for k_, v in m._impl.named_spaces.items()]
+    while todo:
+        prefix, parent, key, sp = todo.pop()
+        path = prefix + key
+        ids[path] = sp
+        if sp.name != key or sp.parent is not parent:
+            out.fail("after %s the space under the key %s has the name %r and the parent %r" % (
+                op[0], path, sp.name, getattr(sp.parent, "idstr", None)), hist)
+            return
+        if sp.idstr != path:
+            out.fail("after %s the space reached through the containers as %s calls itself %s" % (op[0], path, sp.idstr), hist)
+            return
+        todo += [(path + ".", sp, k_, v) for k_, v in sp.named_spaces.items()]
+    nodes = set(graph.nodes)
+    if nodes != set(ids):
+        out.fail("after %s the inheritance graph has the nodes %s, the containers hold the spaces %s" % (
+            op[0], sorted(nodes - set(ids)) or "(none extra)", sorted(set(ids) - nodes) or "(none missing)"), hist)
+        return
+    for path, sp in ids.items():
+        if graph.nodes[path].get("space") is not sp:
+            out.fail("after %s the node %s of the inheritance graph does not hold the space of that path" % (op[0], path), hist)
+            return
+
+
+def same_as_rebuilt(live, ops, out, stats):
+    """derivation from scratch: the model equals, member by member, a model built directly from its definitions
+    (spaces under the names they have now, own cells and references, direct bases)"""
+    defs = W.definitions(live.m)
+    mine = W.describe(live.m, with_values=False)
+    reb, problems = S.rebuild(defs)
+    try:
+        if problems:
+            stats["rebuild_problems"] += 1
+            return
+        theirs = W.describe(reb.m, with_values=False)
+    finally:
+        reb.close()
+    stats["compared_with_rebuilt"] += 1
+    if mine != theirs:
+        diff = sorted(p for p in set(mine["spaces"]) | set(theirs["spaces"]) if mine["spaces"].get(p) != theirs["spaces"].get(p))
+        out.fail("the model differs from a model built from its current definitions in %s" % (diff or "the model-level references"),
+                 S.hist_json(ops), detail={"live": {p: mine["spaces"].get(p) for p in diff[:3]},
+                                           "rebuilt": {p: theirs["spaces"].get(p) for p in diff[:3]}})
 
 
 class H(S.Hooks):
@@ -117,6 +171,7 @@ class H(S.Hooks):
                     ok = v is s.spaces[n]
                 if not ok:
                     out.fail("%s.%s resolves to %r, not to the member the containers give precedence" % (path, n, v), hist)
+        graph_vs_containers(m, op, out, hist)
         try:
             with quiet():
                 mx.core.mxsys._check_sanity()
@@ -230,6 +285,9 @@ def run(ctx, out):
     stats["clash_family_refused"] = refused
     api.run_struct(ctx, out, stats, H, CFG, S.run_one)
     out.coverage["evaluations"] += len(fam)
+    fam3 = S.rename_family()
+    renamed3 = S.run_family(out, stats, fam3, HR, CFG, "rename_family")
+    out.coverage["evaluations"] += len(fam3)
     fam2 = S.refusal_family()
     refused2 = S.run_family(out, stats, fam2, H, CFG, "refusal_family")
     out.coverage["evaluations"] += len(fam2)
@@ -239,6 +297,14 @@ def run(ctx, out):
                              "in mid-chain, creation in the top space / in an existing base, rename, new_space with both as "
                              "bases) x (model-level reference of the name or not); %d of them contain a refused edit"
                              % (len(fam), refused))
+    out.coverage["rule"] += ("; plus the rename family (struct_props.rename_family): %d programs = (path of the renamed "
+                             "space: its name also borne by the parent / the grandparent / both / a child / none) x (new name: "
+                             "fresh / that of another top-level space under which a tree of the same shape exists / that of "
+                             "the parent) x (the renamed space or its child is a base, has a base, the tree of the same shape "
+                             "is a base of a space using a cells name for a reference), each rename followed by edits of the "
+                             "renamed space, of the spaces below it, of their sub spaces and bases, and a rename back; graph "
+                             "node ids = container paths after every operation, derivation from scratch at the end"
+                             % len(fam3))
     out.coverage["rule"] += ("; plus the refusal family (struct_props.refusal_family): %d programs = (a base with two or "
                              "three sibling sub spaces / a chain / a diamond) x (which sub space uses the name, as cells / "
                              "child space / reference) x (model-level reference of the name: none / created before / "
@@ -246,6 +312,14 @@ def run(ctx, out):
                              "arriving in the base by creation or rename), each followed by edits of the base that only "
                              "re-derive its sub spaces, the request again and more re-derivation; %d contain a refused edit"
                              % (len(fam2), refused2))
+
+
+class HR(H):
+    """the hooks of the rename family: at the end, derivation from scratch too"""
+    def after(self, live, ops, k, op, result, out, stats):
+        H.after(self, live, ops, k, op, result, out, stats)
+        if not out.failures and (op[0] == "rename_space" or (op[0] == "new_space" and op[2] == "Z")):
+            same_as_rebuilt(live, ops[:k + 1], out, stats)
 
 
 def replay(ctx, payload, out):
